@@ -521,6 +521,15 @@ class Optic:
             Py (float or numpy.ndarray): The normalized y pupil coordinate
             wavelength (float): The wavelength of the rays.
         """
+        # accept any scalar (Python or numpy) and any sequence: numpy
+        # scalars become Python floats, lists become float arrays
+        def _as_float(value):
+            if isinstance(value, np.ndarray) and value.ndim > 0:
+                return value
+            value = np.asarray(value, dtype=float)
+            return float(value) if value.ndim == 0 else value
+        Hx, Hy, Px, Py = [_as_float(v) for v in (Hx, Hy, Px, Py)]
+
         vx, vy = self.fields.get_vig_factor(Hx, Hy)
 
         # the ray generator compresses the pupil by the vignetting factors;
